@@ -215,7 +215,9 @@ func (g *bGen) genCase(version uint32, idx int) *bCase {
 	if g.search {
 		pHost = 2
 	}
-	if rng.Intn(pHost) == 0 {
+	// (only in the C02 stream: these proposals are decided differently by the code
+	// as found and the repaired code, and C01/C03 do not depend on that repair)
+	if g.prop == "C02" && rng.Intn(pHost) == 0 {
 		ai := rng.Intn(nAcct)
 		switch rng.Intn(3) {
 		case 0:
@@ -1144,9 +1146,20 @@ func (g *bGen) deviate(c *bCase) {
 		}
 		return sites[rng.Intn(len(sites))]
 	}
+	c02only := map[string]bool{"diff-new-expiry": true, "diff-new-version": true, "diff-duplicate-plain": true,
+		"diff-acct-key": true}
 	for try := 0; try < 20; try++ {
 		s := pick()
+		if g.prop != "C02" && c02only[s.name] {
+			continue
+		}
 		if s.fn() {
+			if s.name == "height-wrap" && g.prop != "C02" {
+				// the honest new expiries were chosen for the old height
+				for i := range c.Msg.Diffs {
+					c.Msg.Diffs[i].NewExpiry = 0
+				}
+			}
 			c.Devs = append(c.Devs, s.name)
 			return
 		}
